@@ -207,6 +207,9 @@ pub fn labels(cfg: &RunCfg, r: &SingleResult) -> Vec<String> {
             }
         ),
     ];
+    if cfg.on_clone {
+        l.push("run:on_a_clone_of_the_built_graph".into());
+    }
     if cfg.pre_interrupted > 0 {
         l.push("run:state_already_interrupted".into());
     }
